@@ -41,7 +41,11 @@ fn sorted(mut v: Vec<String>) -> String {
     s
 }
 
-fn same(a: &ResourceRecord, b: &ResourceRecord) -> bool { a == b }
+/// record identity as the store must see it (owner, class, RDATA; TTL and cache-flush bit are not part of
+/// it), decided on the field values, not by the library's `==`
+fn same(a: &ResourceRecord, b: &ResourceRecord) -> bool {
+    text::name(&a.name) == text::name(&b.name) && a.class as u16 == b.class as u16 && text::rdata(&a.rdata) == text::rdata(&b.rdata)
+}
 
 #[derive(Clone)]
 enum Op { Auth(ResourceRecord<'static>), Cached(ResourceRecord<'static>), Remove(ResourceRecord<'static>), Clear }
@@ -68,7 +72,8 @@ pub fn c13(tier: &str, seed: u64) -> Vec<Case> {
         let mut ops: Vec<Op> = vec![];
         let mut pool: Vec<ResourceRecord<'static>> = vec![];
         for _ in 0..r.range(0, if it % 10 == 0 { 9 } else { 4 }) {
-            let rr = if !pool.is_empty() && r.chance(1, 4) { r.pick(&pool).clone() } else { rand_rr(&mut r, &names) };
+            // an earlier record again, half of the time with another TTL / cache-flush bit (the same record)
+            let rr = if !pool.is_empty() && r.chance(1, 4) { let mut x = r.pick(&pool).clone(); if r.chance(1, 2) { x.ttl = *r.pick(&[0u32, 1, 60, 120, 4500]); x.cache_flush = r.chance(1, 2); } x } else { rand_rr(&mut r, &names) };
             pool.push(rr.clone());
             ops.push(match r.below(10) { 0 | 1 => Op::Cached(rr), 2 => Op::Remove(rr), 3 if r.chance(1, 4) => Op::Clear, _ => Op::Auth(rr) });
         }
@@ -151,7 +156,11 @@ struct Ev { line: String, lo: u128, hi: u128 }
 fn history(seed: u64, steps: usize) -> Vec<Case> {
     let mut r = Rng::new(seed);
     let names = [vec![b"x".to_vec(), b"local".to_vec()], vec![b"y".to_vec(), b"x".to_vec(), b"local".to_vec()], vec![b"z".to_vec(), b"local".to_vec()]];
-    let recs: Vec<ResourceRecord<'static>> = names.iter().enumerate().map(|(i, n)| ResourceRecord::new(mk_name(n), CLASS::IN, 0, RData::A(A { address: i as u32 }))).collect();
+    // three records on three names and a fourth that shares its owner with the first
+    let rec_names = [names[0].clone(), names[1].clone(), names[2].clone(), names[0].clone()];
+    let recs: Vec<ResourceRecord<'static>> = rec_names.iter().enumerate().map(|(i, n)| ResourceRecord::new(mk_name(n), CLASS::IN, 0, RData::A(A { address: i as u32 }))).collect();
+    let svc_local = mk_name(&[b"local".to_vec()]);
+    let own_local = mk_name(&[b"own".to_vec(), b"local".to_vec()]);
     let mut mgr: ResourceRecordManager<'static> = ResourceRecordManager::new();
     let start = Instant::now();
     let ms = |t: Instant| t.duration_since(start).as_micros();
@@ -159,24 +168,41 @@ fn history(seed: u64, steps: usize) -> Vec<Case> {
     // abstract state for the oracle: per record None / auth / cached(expiry interval in µs)
     #[derive(Clone, Copy, PartialEq)]
     enum St { No, Auth, Cached(u128, u128, u128, u128) }
-    let mut st = [St::No; 3];
+    let mut st = [St::No; 4];
     let mut out = vec![];
     for step in 0..steps {
         // operations on the half-second grid
         let due = start + Duration::from_millis(500 * step as u64);
         if let Some(d) = due.checked_duration_since(Instant::now()) { std::thread::sleep(d); }
         for _ in 0..r.range(0, 2) {
-            let i = r.below(3) as usize;
+            let i = r.below(4) as usize;
             match r.below(10) {
                 0..=5 => {
                     let ttl = *r.pick(&[0u32, 1, 1, 2, 2, 1000]);
                     let flush = r.chance(1, 4);
                     let mut rr = recs[i].clone().with_cache_flush(flush);
                     rr.ttl = ttl;
-                    let t0 = Instant::now();
-                    mgr.add_cached_resource(rr.clone());
-                    let t1 = Instant::now();
-                    evs.push(Ev { line: format!("C {{}} {}", text::rr(&rr)), lo: ms(t0), hi: ms(t1) });
+                    // directly, or the way the discovery listener receives it: a response on the wire, parsed,
+                    // filtered, made owned, stored
+                    let via_network = r.chance(1, 2);
+                    let (t0, t1);
+                    if via_network {
+                        let mut p = Packet::new_reply(0);
+                        p.answers.push(rr.clone());
+                        let wire = p.build_bytes_vec_compressed().unwrap();
+                        let parsed = Packet::parse(&wire).unwrap();
+                        let ptxt = text::packet(&parsed);
+                        let mut ch = None;
+                        t0 = Instant::now();
+                        simple_mdns::verif::sync_add_response_to_resources(parsed, &svc_local, &own_local, &mut mgr, &mut ch);
+                        t1 = Instant::now();
+                        evs.push(Ev { line: format!("I {{}} {} {} {}", text::name(&svc_local), text::name(&own_local), ptxt), lo: ms(t0), hi: ms(t1) });
+                    } else {
+                        t0 = Instant::now();
+                        mgr.add_cached_resource(rr.clone());
+                        t1 = Instant::now();
+                        evs.push(Ev { line: format!("C {{}} {}", text::rr(&rr)), lo: ms(t0), hi: ms(t1) });
+                    }
                     let eff = if flush { 1 } else { ttl } as u128 * 1_000_000;
                     let effs = if flush { 1 } else { ttl } as u128;
                     // ExpirationInfo::new: refresh at half the lifetime below a minute, else at 80 %
@@ -185,7 +211,7 @@ fn history(seed: u64, steps: usize) -> Vec<Case> {
                 }
                 6 => { mgr.add_authoritative_resource(recs[i].clone()); evs.push(Ev { line: format!("A {}", text::rr(&recs[i])), lo: 0, hi: 0 }); st[i] = St::Auth; }
                 7 | 8 => { mgr.remove_resource_record(&recs[i]); evs.push(Ev { line: format!("R {}", text::rr(&recs[i])), lo: 0, hi: 0 }); st[i] = St::No; }
-                _ => { if r.chance(1, 3) { mgr.clear(); evs.push(Ev { line: "X".to_string(), lo: 0, hi: 0 }); st = [St::No; 3]; } }
+                _ => { if r.chance(1, 3) { mgr.clear(); evs.push(Ev { line: "X".to_string(), lo: 0, hi: 0 }); st = [St::No; 4]; } }
             }
         }
         // queries at the quarter offsets
@@ -222,8 +248,8 @@ fn history(seed: u64, steps: usize) -> Vec<Case> {
             let mut c = Case::new(op_a, sorted(got.clone())).tag(fname).tag("query");
             c.alt = Some(op_b);
             // the property, directly over the recorded history
-            for i in 0..3 {
-                let rname = &names[i];
+            for i in 0..4 {
+                let rname = &rec_names[i];
                 let in_scope = if sub { rname.len() >= qname.len() && rname[rname.len() - qname.len()..] == qname[..] } else { *rname == qname };
                 let present = got.iter().any(|g| g.contains(&format!("F 1 1 i {}", i)));
                 let verdict: Option<bool> = match st[i] {
